@@ -123,6 +123,10 @@ def run(pid, tier, spec, replay_file=None, write=True, clear=True):
             raise Infra('observation check did not complete:\n' + out[-3000:])
         gen, dist = tlc_stats(out)
         bad = sorted({int(x) for x in re.findall(r'<<"BAD", (\d+)', out)})
+        drifted = sorted({int(x) for x in re.findall(r'<<"ARITH-DRIFT", (\d+)', out)})
+        if drifted:
+            print('DRIFT property=%s %s: the shard layout of %d case(s) is not the one transcribed in %s.tla (sizes %s)' % (
+                pid, mod, len(drifted), mod, sorted({json.loads(obs[l - 1])['case']['size'] for l in drifted})[:8]))
     finally:
         shutil.rmtree(tmp, ignore_errors=True)
     kf = [f for f in known_findings().get('findings', []) if f.get('property') == pid]
@@ -160,6 +164,14 @@ def run(pid, tier, spec, replay_file=None, write=True, clear=True):
         'explanation': 'TLC enumerates the decision table of %s.tla, the harness runs every case through the real pipeline, '
                        'TLC evaluates %s!Ok on every observation.' % (mod, mod),
     }
+    for mod_inv in spec.get('apalache', []):
+        # unbounded statements about the arithmetic of the module, discharged by Apalache (SMT); 'Error' means the
+        # transcription in the specification is wrong -- a defect of the machinery, never a verdict
+        res = apalache(*mod_inv)
+        coverage.setdefault('apalache', []).append({'module': mod_inv[0], 'invariant': mod_inv[1], 'result': res,
+                                                    'scope': 'every integer value of the parameter (no bound)'})
+        if res == 'Error':
+            raise Infra('Apalache refutes %s!%s -- the specification is inconsistent' % mod_inv)
     if not write:
         return (1 if nv else 0), coverage
     write_evidence(pid, tier, 'model_checking', coverage, time.time() - t0, nv, spec.get('assumptions', []))
